@@ -14,13 +14,13 @@ import (
 
 type numCase struct {
 	ID     int      `json:"id"`
-	Group  int      `json:"group"`  // cases of one group carry the same mathematical value and constraint
-	Entry  string   `json:"entry"`  // helper | param | header | schema | schema-jnum
-	Kind   string   `json:"kind"`   // maximum | minimum | multipleOf
-	C      string   `json:"c"`      // constraint literal
+	Group  int      `json:"group"` // cases of one group carry the same mathematical value and constraint
+	Entry  string   `json:"entry"` // helper | param | header | schema | schema-jnum
+	Kind   string   `json:"kind"`  // maximum | minimum | multipleOf
+	C      string   `json:"c"`     // constraint literal
 	Excl   bool     `json:"excl,omitempty"`
 	Val    typedVal `json:"val"`
-	Type   string   `json:"type,omitempty"`   // declared type for param / header / schema
+	Type   string   `json:"type,omitempty"` // declared type for param / header / schema
 	Format string   `json:"format,omitempty"`
 }
 
